@@ -15,7 +15,8 @@ FENS = [
     '4k3/8/8/8/8/8/8/4K2R b K - 0 9999',
     '4b1k1/3p1p1p/3P1P1P/8/8/3p1p1p/3P1P1P/4B1K1 w - - 0 1',
 ]
-BADFENS = ['xyz', '88p/8/8/8/8/8/8/8 w - - 0 1', '4k3/8/8/8/8/8/8/4K3 w - - 0 20000', '8/8/8/8/8/8/8/8 w - - 0 1', '4k3/8/8/8/8/8/8/4K3 w KQ - 0 1',
+BADFENS = ['7k/P7/8/8/8/8/NNNNNNNN/KNNNNNNN w - - 0 1', '7K/8/8/8/8/8/p7/knnnnnnn b - - 0 1', 'knnnnnnn/nnnnnnnn/8/8/8/8/7p/7K b - - 0 1', '7k/PP6/8/8/8/8/NNNNNNNN/K1NNNNNN w - - 0 1',
+           '4k3/pppppppp/p7/8/8/8/8/4K3 b - - 0 1', 'xyz', '88p/8/8/8/8/8/8/8 w - - 0 1', '4k3/8/8/8/8/8/8/4K3 w - - 0 20000', '8/8/8/8/8/8/8/8 w - - 0 1', '4k3/8/8/8/8/8/8/4K3 w KQ - 0 1',
            '4k3/8/8/8/8/8/8/4K3 w - e6 0 1', '4k3/P7/8/8/8/QQQQQQQQ/QQQQQQQ1/4K3 w - - 0 1', '', 'fen', 'fen ', '4k3/8/8/8/8/8/8/4K3 w - - 0', 'p3k3/8/8/8/8/8/8/4K3 w - - 0 1']
 NUMS = ['0', '1', '-1', '2', '3', '200', '250', '1000000', '9999999999', '99999999999999999999', '-5', 'x', '', '1.5', '+2', '0x10', ' 2', '-0', '00']
 GAME = 'e2e4 e7e5 g1f3 b8c6 f1c4 g8f6 e1g1 f8c5 d2d3 e8g8'.split()
@@ -37,7 +38,9 @@ def gen_script(rng, n_lines):
                 lines.append(rng.choice(['position ', 'position fen ', 'position  ']) + fen)
             else:
                 bad = rng.choice(BADFENS)
-                lines.append(rng.choice(['position ', 'position fen ']) + bad + rng.choice(['', ' moves e2e4', ' moves e2e4 e7e5']))
+                lines.append(rng.choice(['position ', 'position fen ']) + bad + rng.choice(['', '', ' moves e2e4', ' moves e2e4 e7e5']))
+                if rng.random() < 0.6:
+                    lines.append(rng.choice(['perft 1', 'perft 2', 'go depth 1', 'go depth 2', 'tperft 1', 'eval']))
         elif k < 0.45:
             f = rng.random()
             if f < 0.35:
